@@ -274,6 +274,20 @@ def comment_wellformed(snap):
     return None
 
 
+def comment_absorbs_code(snap):
+    """a code token that follows a '--' comment on the same line: in the written text it is part of the comment, so the file no
+    longer has the code tokens of the model (C01)"""
+    in_cmt = None
+    for k, v, _, ty in snap:
+        if k == "cr":
+            in_cmt = None
+        elif k == "cmt" and v.startswith("--"):
+            in_cmt = v
+        elif k == "code" and in_cmt is not None:
+            return "the code token %r follows the comment %r on its line: written out, it is comment text" % (v[:20], in_cmt[:30])
+    return None
+
+
 def check_phase_class(before, after, rule):
     """C03: effect class by phase"""
     ph = rule.phase
@@ -330,6 +344,12 @@ def fix_run(args):
     oFile, oRules, oConfig, lines = ld
     stats["accepted"] = True
     first_snap = snapshot(oFile, K)
+    # C02, against an oracle that is not VSG's classifier: the comments of the parsed model are the comments of the text
+    from bounded import commentlex
+
+    m = commentlex.compare(lines, oFile.lAllObjects)
+    if m:
+        probs["C02"].append(("", "parsing changed a comment: " + m))
     orig_fix, orig_analyze = rule.Rule.fix, rule.Rule.analyze
     state = {"updates": None, "depth": 0}
     real_update = oFile.update
@@ -423,6 +443,9 @@ def fix_run(args):
             m = None if comment_wellformed(before) else comment_wellformed(after)
             if m:
                 probs["C02"].append((rid, m))
+            m = None if comment_absorbs_code(before) else comment_absorbs_code(after)
+            if m:
+                probs["C01"].append((rid, m))
             m = check_phase_class(before, after, self)
             if m:
                 probs["C03"].append((rid, m))
